@@ -13,6 +13,7 @@ import TaffyVerif.Drv.C14
 import TaffyVerif.Drv.C13
 import TaffyVerif.Drv.C18
 import TaffyVerif.Drv.C15
+import TaffyVerif.Drv.FLEX
 
 def handlers : List (String × Handler) := [
   ("C02", DrvC02.handler),
@@ -34,7 +35,8 @@ def handlers : List (String × Handler) := [
   ("C14", DrvC14.handler),
   ("C13", DrvC13.handler),
   ("C18", DrvC18.handler),
-  ("C15", DrvC15.handler)
+  ("C15", DrvC15.handler),
+  ("FLEX", DrvFLEX.handler)
 ]
 
 partial def loop (h : Handler) (inp : IO.FS.Stream) (out : IO.FS.Stream) (s : h.σ) : IO Unit := do
